@@ -481,3 +481,64 @@ func H_C09_first_field() {
 	}
 	verifReach("C09.first-field.ok")
 }
+
+// a Taggable whose tags are faulty: Tags() fails, a pointer names an entry that does not exist (skipped, the rest still
+// applies), a pointer is malformed (the whole event is refused)
+type tFaulty map[string]interface{}
+
+var tFaultyMode int
+
+type tFaultErr struct{}
+
+func (e *tFaultErr) Error() string { return "tags" }
+
+func (t tFaulty) Tags() ([]PointerTag, error) {
+	switch tFaultyMode {
+	case 0:
+		return nil, &tFaultErr{}
+	case 1:
+		return []PointerTag{
+			{Pointer: "/missing", Classification: SecretClassification, Filter: RedactOperation},
+			{Pointer: "/token", Classification: SecretClassification, Filter: RedactOperation},
+		}, nil
+	}
+	return []PointerTag{{Pointer: "token", Classification: SecretClassification, Filter: RedactOperation}}, nil
+}
+
+func H_C09_taggable_faults() {
+	c := symEnv()
+	tFaultyMode = symLen(0, 2)
+	verifNoteInt("mode", tFaultyMode)
+	a, b := nondetString(), nondetString()
+	in := tFaulty{"token": a, "other": b}
+	e := newEvent(in)
+	out, err := c.ef.Process(context.Background(), e)
+	verifAssert(in["token"].(string) == a && in["other"].(string) == b && len(in) == 2, "C10.taggable-faults.original-untouched")
+	if c.o.allNone() {
+		return
+	}
+	if tFaultyMode != 1 {
+		verifAssert(err != nil && out == nil, "C09.taggable-faults.bad-tags-fail-closed")
+		verifReach("C09.taggable-faults.refused")
+		return
+	}
+	if c.w == nil && c.o.needsWrapper() {
+		return
+	}
+	if err != nil {
+		verifAssert(out == nil, "C09.taggable-faults.error-forwards-nothing")
+		return
+	}
+	if out == nil {
+		return
+	}
+	m, ok := out.Payload.(tFaulty)
+	verifAssert(ok && len(m) == 2, "C10.taggable-faults.type-and-keys-preserved")
+	if ok {
+		tok, _ := m["token"].(string)
+		oth, _ := m["other"].(string)
+		c.checkLeaf(tok, a, "secret", RedactOperation, "C09.taggable-faults.tagged-entry-after-a-missing-one")
+		c.checkLeaf(oth, b, "", NoOperation, "C09.taggable-faults.untagged-entry")
+		verifReach("C09.taggable-faults.ok")
+	}
+}
